@@ -473,11 +473,12 @@ def corpus(tier):
     # ---- A: one statement at the top level -------------------------------
     coefs_t = ["1", "2", "p", "Bp", "p2", "/p"] + (["mp"] if thorough else [])
     top1 = one_term("T", [XA, YA], coefs_t)
-    top2 = multi_term("T", [XA, YA], [(pm, ("1", "p")), (pm, ("1", "p"))])
-    top3 = multi_term("T", [XA], [(pm, ("1",)), (pm, ("p",)), (pm, ("2",))])
+    top2 = multi_term("T", [XA, YA], [(pm, ("1", "p")), (pm, ("p",))])
+    top3 = multi_term("T", [XA], [(pm, ("1",)), (pm, ("p",)), (("-",), ("2",))])
     if thorough:
-        top2 += multi_term("T", [XA, YA], [(pm, ("/p", "2")),
+        top2 += multi_term("T", [XA, YA], [(pm, ("1", "p", "/p", "2")),
                                            (pm, ("1", "p", "/p"))])
+        top3 += multi_term("T", [XA], [(pm, ("1",)), (pm, ("p",)), (pm, ("2",))])
         top3 += multi_term("T", [YA], [(pm, ("p",)), (pm, ("1",)), (pm, ("/p",))])
     add("A1.top-1term", [[s] for s in top1])
     add("A2.top-2term", [[s] for s in top2])
@@ -487,18 +488,23 @@ def corpus(tier):
     coefs_l = ["1", "2", "p", "Bp", "q", "pq", "/p", "/q", "p/q"] + \
         (["p2", "mp"] if thorough else [])
     lhs_l1 = [XA, YA, UI, UM, UP, VI]
-    add("B1.loop-1term", [[loop("up", [s])]
-                          for s in one_term("L1", lhs_l1, coefs_l)])
-    loop2 = multi_term("L1s", [XA, UI, VI], [(pm, ("p",)), (pm, ("1", "q"))])
     if thorough:
-        loop2 += multi_term("L1", [XA, UI, VI], [(pm, ("1", "p")),
-                                                 (pm, ("1", "q"))])
+        loop1 = one_term("L1", lhs_l1, coefs_l)
+    else:
+        lhs_q = [XA, UI, UM, VI]
+        loop1 = one_term("L1", lhs_q, coefs_l, signs=("+",)) + \
+            one_term("L1", lhs_q, ["1", "p", "/q"], signs=("-",), zero=False)
+    add("B1.loop-1term", [[loop("up", [s])] for s in loop1])
+    loop2 = multi_term("L1s", [XA, UI], [(pm, ("p",)), (pm, ("1", "q"))])
+    if thorough:
+        loop2 += multi_term("L1s", [VI], [(pm, ("p",)), (pm, ("1", "q"))])
+        loop2 += multi_term("L1", [XA, UI, VI], [(pm, ("1",)), (pm, ("1", "q"))])
     add("B2.loop-2term", [[loop("up", [s])] for s in loop2])
     loop3 = multi_term("L1s", [UI], [(("+",), ("p",)), (pm, ("1",)),
-                                     (pm, ("/q",))])
+                                     (("-",), ("/q",))])
     if thorough:
-        loop3 += multi_term("L1", [UI], [(("+",), ("p",)), (pm, ("1",)),
-                                         (pm, ("/q",))])
+        loop3 += multi_term("L1s", [UI], [(("+",), ("p",)), (pm, ("1",)),
+                                          (pm, ("/q",))])
         loop3 += multi_term("L1s", [XA, VI], [(pm, ("1",)), (pm, ("p",)),
                                               (("+",), ("q",))])
     add("B3.loop-3term", [[loop("up", [s])] for s in loop3])
@@ -509,15 +515,17 @@ def corpus(tier):
     add("C1.loopkinds", [[loop(k, [s])] for k in kinds for s in red1])
     if thorough:
         add("C2.loopkinds-1term",
-            [[loop(k, [s])] for k in kinds if k != "up"
-             for s in one_term("L1", lhs_l1, ["1", "p", "/q"])])
+            [[loop(k, [s])] for k in kinds if k not in ("up", "c3", "r3")
+             for s in one_term("L1", lhs_l1, ["1", "p", "/q"], signs=("+",))])
 
     # ---- D: nested loops --------------------------------------------------
     red2 = reduced("L2", "thorough")
     pairs = [("up", "up"), ("dn", "s2"), ("s2", "dn"), ("in", "up")]
     if thorough:
-        pairs = [(a, b) for a in kinds for b in kinds] + \
-            [(a, "tri") for a in ("up", "dn", "s2")]
+        main = ("up", "dn", "in", "s2", "d2")
+        pairs = [(a, b) for a in main for b in main] + \
+            [(a, "tri") for a in ("up", "dn", "s2")] + \
+            [("c3", "up"), ("up", "r3"), ("e2", "e2")]
     add("D1.nested", [[loop(a, [loop(b, [s], "j")])] for a, b in pairs
                       for s in red2])
     nest1 = one_term("L2", [WIJ, UI, XA, VI], ["1", "p", "q"] +
@@ -548,7 +556,8 @@ def corpus(tier):
     add("F3.loop-then-stmt", [[loop("up", [s]), t] for s in r1 for t in rt] +
         [[t, loop("up", [s])] for s in r1 for t in rt])
     add("F4.two-loops", [[loop(a, [s]), loop(b, [t])]
-                         for a, b in (("up", "up"), ("up", "dn"))
+                         for a, b in ((("up", "up"), ("up", "dn")) if thorough
+                                      else (("up", "dn"),))
                          for s in r1 for t in r1])
     add("F5.nested-seq2", [[loop("up", [loop("up", [s, t], "j")])]
                            for s in r2 for t in r2] +
@@ -573,7 +582,7 @@ def corpus(tier):
         add("G1.top-seq3", [[s, t, r] for s in rt for t in rt for r in rt])
         add("G2.loop-seq3", [[loop(k, [s, t, r])] for k in ("up", "s2")
                              for s in b1 for t in b1 for r in b1] +
-            [[loop("up", [s, t, r])] for s in r1[5:] for t in r1 for r in r1[5:]])
+            [[loop("up", [s, t, r])] for s in r1[5:] for t in b1 for r in r1[5:]])
         add("G3.mixed-seq3", [[s, loop("up", [t]), r] for s in bt for t in b1
                               for r in bt] +
             [[loop("up", [s]), r, loop("dn", [t])] for s in b1 for t in b1
